@@ -40,7 +40,8 @@ fn dg4(a: u8, b: u8, c: u8, d: u8) -> Option<i64> {
 }
 /// ISO 8601 extended calendar date: `YYYY-MM-DD` (10 bytes) or, with the expanded year, `sYYYYYY-MM-DD`
 /// (13 bytes, s = '+' | '-'; "-000000" is not a year).  Returns the named (y, m, d) if it is a Gregorian date.
-fn ref_date(b: &[u8; BUF], n: usize) -> Option<(i64, i64, i64)> {
+fn ref_date<const N: usize>(b: &[u8; N], n: usize) -> Option<(i64, i64, i64)> {
+    if n > N { return None; }
     let (y, at) = if n == 10 {
         (dg4(b[0], b[1], b[2], b[3])?, 4)
     } else if n == 13 {
@@ -169,13 +170,6 @@ fn ref_date_prefix<const N: usize>(b: &[u8; N]) -> Option<(i64, i64, i64, usize)
     if !valid(y, m, d) { return None; }
     Some((y, m, d, p + 2))
 }
-fn copy_into<const N: usize>(b: &[u8; N]) -> [u8; BUF] {
-    let mut out = [0u8; BUF];
-    let mut i = 0;
-    while i < N { out[i] = b[i]; i += 1; }
-    out
-}
-
 //@harness c09_parse_date_spec_10
 //@target fmt::temporal::parser::DateTimeParser::{parse_date_spec,parse_year,parse_year_sign,parse_month,parse_day,parse_date_separator} + util::parse::{i64,split,slicer} + civil::Date::new_ranged (src/fmt/temporal/parser.rs)
 //@prop C09
@@ -222,18 +216,10 @@ fn c09_parse_date_spec_13() {
     }
 }
 
-//@harness c09_parse_date_10
-//@target fmt::temporal::DateTimeParser::parse_date (= <civil::Date as FromStr>::from_str) -> parser::DateTimeParser::parse_temporal_datetime -> Parsed::into_full -> ParsedDateTime::to_date (src/fmt/temporal/mod.rs, parser.rs)
-//@prop C09
-//@tier quick
-//@timeout 900
-//@doc for EVERY 10-byte string: the public date parser returns Ok(d) exactly when the string is `YYYY-MM-DD` naming a Gregorian date per the independent reference reader (the same reader that decodes the printer's output), and d has exactly those fields; every other 10-byte string (including the basic form + 2 trailing bytes) is Err  [parse = decode on the printer's positive-year shape]
-#[kani::proof]
-#[kani::unwind(8)]
-fn c09_parse_date_10() {
-    let b: [u8; 10] = kani::any();
-    let r = crate::fmt::temporal::DateTimeParser::new().parse_date(&b);
-    match ref_date(&copy_into(&b), 10) {
+/// the public entry point behind `<civil::Date as FromStr>::from_str`, checked against the reference reader
+fn check_parse_date<const N: usize>(b: &[u8; N]) {
+    let r = crate::fmt::temporal::DateTimeParser::new().parse_date(b);
+    match ref_date(b, N) {
         None => assert!(r.is_err()),
         Some((y, m, d)) => match r {
             Err(_) => assert!(false, "a valid date was rejected"),
@@ -242,23 +228,33 @@ fn c09_parse_date_10() {
     }
 }
 
-//@harness c09_parse_date_13
-//@target fmt::temporal::DateTimeParser::parse_date (= <civil::Date as FromStr>::from_str) -> parser::DateTimeParser::parse_temporal_datetime -> Parsed::into_full -> ParsedDateTime::to_date (src/fmt/temporal/mod.rs, parser.rs)
+//@harness c09_parse_date_10
+//@target fmt::temporal::DateTimeParser::parse_date (= <civil::Date as FromStr>::from_str) -> parser::DateTimeParser::parse_temporal_datetime -> parse_date_spec -> Parsed::into_full -> ParsedDateTime::to_date (src/fmt/temporal/mod.rs, parser.rs)
 //@prop C09
 //@tier quick
 //@timeout 900
-//@doc for EVERY 13-byte string that starts with '+' or '-': the public date parser returns Ok(d) exactly when the string is `sYYYYYY-MM-DD` naming a Gregorian date in -9999..=9999 per the independent reference reader ("-000000" is Err), and d has exactly those fields  [parse = decode on the printer's negative-year shape].  13-byte strings that start with a digit (e.g. `2024-01-01T12`, `20240101[UTC]`) are a different production and not covered here.
+//@doc for EVERY 10-byte string of the printer's positive-year shape `????-??-??` (both '-' in place, the other 8 bytes arbitrary): the public date parser returns Ok(d) exactly when the independent reference reader (the same one that decodes the printer's output) finds a Gregorian date, and d has exactly those fields; everything else is Err, never a panic  [parse = decode].  Composition with c09_print_date: print emits this shape and decode(print(d)) = d, hence parse(print(d)) = Ok(d) for every Date with year >= 0.
+#[kani::proof]
+#[kani::unwind(8)]
+fn c09_parse_date_10() {
+    let mut b: [u8; 10] = kani::any();
+    b[4] = b'-';
+    b[7] = b'-';
+    check_parse_date(&b);
+}
+
+//@harness c09_parse_date_13
+//@target fmt::temporal::DateTimeParser::parse_date (= <civil::Date as FromStr>::from_str) -> parser::DateTimeParser::parse_temporal_datetime -> parse_date_spec/parse_year (signed six-digit year) -> Parsed::into_full -> ParsedDateTime::to_date (src/fmt/temporal/mod.rs, parser.rs)
+//@prop C09
+//@tier quick
+//@timeout 900
+//@doc for EVERY 13-byte string of the printer's negative-year shape `s??????-??-??` (s = '-' as printed, or '+'; both '-' separators in place, the other 10 bytes arbitrary): the public date parser returns Ok(d) exactly when the reference reader finds a Gregorian date with year in -9999..=9999 ("-000000" is Err), and d has exactly those fields  [parse = decode].  Composition with c09_print_date: parse(print(d)) = Ok(d) for every Date with year < 0.
 #[kani::proof]
 #[kani::unwind(8)]
 fn c09_parse_date_13() {
-    let b: [u8; 13] = kani::any();
-    kani::assume(b[0] == b'+' || b[0] == b'-');
-    let r = crate::fmt::temporal::DateTimeParser::new().parse_date(&b);
-    match ref_date(&copy_into(&b), 13) {
-        None => assert!(r.is_err()),
-        Some((y, m, d)) => match r {
-            Err(_) => assert!(false, "a valid date was rejected"),
-            Ok(date) => assert!(ymd(date) == (y, m, d)),
-        },
-    }
+    let mut b: [u8; 13] = kani::any();
+    b[7] = b'-';
+    b[10] = b'-';
+    // two concrete signs (a symbolic sign byte would make the parser's 4-digit-year path reachable for symbolic execution)
+    if kani::any() { b[0] = b'-'; check_parse_date(&b); } else { b[0] = b'+'; check_parse_date(&b); }
 }
